@@ -6,5 +6,8 @@ import (
 
 // fdatasync flushes written data to a file descriptor.
 func fdatasync(db *DB) error {
+	if err := verifEvent(db, verifOpFdatasync, 0, 0, nil); err != nil {
+		return err
+	}
 	return syscall.Fdatasync(int(db.file.Fd()))
 }
